@@ -257,6 +257,8 @@ class PE:
                 if isinstance(st, ast.For):
                     self._bind_loop(st.target)
                 self.run(st.body, conds + [("inloop", it)])
+            elif isinstance(st, (ast.Continue, ast.Break)):
+                return True
             elif isinstance(st, (ast.Pass, ast.Import, ast.ImportFrom, ast.Global, ast.Nonlocal, ast.FunctionDef, ast.Assert, ast.Delete)):
                 continue
             elif isinstance(st, ast.With):
@@ -310,3 +312,47 @@ def first_difference(a, b):
 def leaves(dl):
     """Return terms of a decision list."""
     return [r for _, r in dl]
+
+
+def decision_list_inlined(repo, fn, binding, normalizer=None, depth=2):
+    """Decision list in which a leaf that is a direct call of a helper defined in the package
+    (``self.helper(...)``, ``Class.helper(...)`` or a module-level function) is replaced by the helper's own
+    decision list with the actual arguments bound (one leaf may become several)."""
+    normalizer = normalizer or Normalizer()
+    base = decision_list(fn.node, binding, normalizer)
+    if depth <= 0:
+        return base
+    out = []
+    for conds, res in base:
+        callee = None
+        args = kws = None
+        if res[0] == "ret" and isinstance(res[1], tuple):
+            v = res[1]
+            if v[0] == "mcall" and len(v) == 5 and fn.cls is not None and (v[1] == P("self") or v[1] == ("free", fn.cls) or v[1] == P("cls")):
+                callee = repo.fns.get((fn.module.name, "%s.%s" % (fn.cls, v[2])))
+                args, kws = v[3], v[4]
+            elif v[0] == "call" and len(v) == 4:
+                callee = repo.fns.get((fn.module.name, v[1])) or repo.maybe_fn(v[1])
+                args, kws = v[2], v[3]
+        if callee is None:
+            out.append((conds, res))
+            continue
+        params = list(callee.params)
+        decos = [ast.unparse(d) for d in callee.node.decorator_list]
+        b2 = {}
+        if callee.cls is not None and "staticmethod" not in decos:
+            if params:
+                b2[params[0]] = P("self") if "classmethod" not in decos else P("cls")
+                params = params[1:]
+        for p_, a in zip(params, args[1:]):
+            b2[p_] = a
+        for k, a in kws[1:]:
+            b2[k] = a
+        try:
+            inner = decision_list_inlined(repo, callee, b2, normalizer, depth - 1)
+        except AnalysisError:
+            out.append((conds, res))
+            continue
+        for c2, r2 in inner:
+            out.append((tuple(conds) + tuple(c2), r2))
+    return out
